@@ -81,6 +81,7 @@ var Prop = &engine.Prop{
 		"linz_histories_checked":    200,
 		"big_size_cases":            8,
 		"sibling_cases":             1000,
+		"rds_unacknowledged_calls":  200,
 		"sibling_replacements":      200,
 	},
 }
